@@ -59,6 +59,9 @@ fn c14_label_default_on_only() {
     label_round_trip(de, de);
 }
 
+// (re-measured at the end of the build: the same round trip with ONE named flag inserted into the two
+// BTreeMaps gives no verdict in 1200 s - BTreeMap insert/lookup stays out of CBMC's reach.)
+
 #[cfg(kani)]
 #[path = "/verif/.cache/playback/diff_flags.rs"]
 mod playback;
